@@ -205,10 +205,15 @@ def run(tier="quick", seed=0):
     cli_opts = [dict(o) for o in rcli.printed("CLIOPTIONS")[0][1]]
     cli_ev = cli_model.events(cli_opts, seed, limit=None if thorough else 120)
     pr.validate("TraceCli", cli_ev, name="cli-invocations", chunks=4)
-    pr.traces = len(traces) + len(by_base) + (1 if rows else 0) + 1
+    # plot dispatch of the decorated stages (Plots.tla; recording dummy plot functions)
+    from drivers import plot_model
+    pr.model_check("MCPlots", workers=4, deadlock=False)
+    plot_ev = plot_model.events(seed, limit=None if thorough else 300)
+    pr.validate("TracePlots", plot_ev, name="plot-dispatch", chunks=2)
+    pr.traces = len(traces) + len(by_base) + (1 if rows else 0) + 2
     nrows = len(rows)
     rows = [e["rows"] for e in run_events]
-    pr.note(cli_invocations=len(cli_ev), cli_rejected=sum(1 for e in cli_ev if e["failed"]), rows_checked_across_stages=nrows, runs=len(run_events), bases=len(by_base), schedulers=SCHEDS, rows_min=min(rows), rows_max=max(rows),
+    pr.note(plot_dispatch_calls=len(plot_ev), cli_invocations=len(cli_ev), cli_rejected=sum(1 for e in cli_ev if e["failed"]), rows_checked_across_stages=nrows, runs=len(run_events), bases=len(by_base), schedulers=SCHEDS, rows_min=min(rows), rows_max=max(rows),
             empty_runs=sum(1 for x in rows if x == 0), cli_runs_compared=cli_checked)
     return pr.finish(
         rule="compute() runs over the TLC-enumerated configuration matrix x {sync, threads-4, processes-2, order-reversed} "
